@@ -18,11 +18,18 @@ import (
 
 const modulePrefix = "github.com/gotid/god"
 
+type Observe struct {
+	Name string
+	T    Term
+}
+
 type OblInstance struct {
-	PC    []Term
-	Goal  Term
-	Trail []string
-	Info  string
+	PC       []Term
+	Goal     Term
+	Trail    []string
+	Info     string
+	Observes []Observe
+	Small    []Term // extra constraints used only when asking for a (small) counterexample model
 }
 
 type Obligation struct {
@@ -60,6 +67,8 @@ type Exec struct {
 	ld        *Loaded
 	lemmaName string
 	entailCache map[string]bool
+	curObs      []Observe
+	curSmall    []Term
 }
 
 func newExec(prog *ssa.Program, pkgs map[string]*packages.Package, db *ContractDB) *Exec {
@@ -155,7 +164,7 @@ func (x *Exec) assert(st *State, name, kind, text, src string, goal Term, counts
 		x.oblOrder = append(x.oblOrder, name)
 	}
 	if goal.S != "true" {
-		o.Instances = append(o.Instances, OblInstance{PC: append([]Term(nil), st.pc...), Goal: goal, Trail: append([]string(nil), st.trail...)})
+		o.Instances = append(o.Instances, OblInstance{PC: append([]Term(nil), st.pc...), Goal: goal, Trail: append([]string(nil), st.trail...), Observes: x.curObs, Small: x.curSmall})
 	} else if len(o.Instances) == 0 {
 		// keep a trivially-true instance so the obligation is known to be reachable
 		o.Instances = append(o.Instances, OblInstance{PC: nil, Goal: tTrue})
@@ -334,10 +343,6 @@ func (x *Exec) verifyFunc(fn *ssa.Function, c *FuncContract) {
 	fr.block = fn.Blocks[0]
 	// lets and requires in the pre-state
 	sc := x.specCtxFor(st, fr, nil)
-	for _, l := range c.Lets {
-		st.lets = copyLets(st.lets)
-		st.lets[l.Label] = x.evalSpec(sc, l.Expr)
-	}
 	for _, r := range c.Requires {
 		st.assume(x.evalBool(sc, r.Expr))
 	}
@@ -997,6 +1002,38 @@ func (x *Exec) checkExit(st *State, fr *Frame, res []Value, panicking bool) {
 	c := x.rootC
 	sc := x.specCtxFor(st, fr, fr.pre)
 	sc.atExit = true
+	x.curObs = nil
+	defer func() { x.curObs = nil }()
+	if !panicking {
+		rs := fr.fn.Signature.Results()
+		for i := 0; i < rs.Len() && i < len(res); i++ {
+			if n := rs.At(i).Name(); n != "" && n != "_" {
+				sc.vars[n] = res[i]
+			}
+			sc.vars[fmt.Sprintf("result%d", i)] = res[i]
+		}
+		if len(res) >= 1 {
+			sc.vars["result"] = res[0]
+		}
+	}
+	sc.panicking = panicking
+	for _, ob := range c.Observes {
+		x.evalObserve(sc, ob)
+	}
+	x.curSmall = nil
+	defer func() { x.curSmall = nil }()
+	for _, ra := range c.ReplayAssume {
+		func() {
+			defer func() {
+				if r := recover(); r != nil {
+					if _, ok := r.(engineError); !ok {
+						panic(r)
+					}
+				}
+			}()
+			x.curSmall = append(x.curSmall, x.evalBool(sc, ra.Expr))
+		}()
+	}
 	if panicking {
 		sc.panicking = true
 		if c.NoPanic {
@@ -1204,11 +1241,8 @@ func (x *Exec) callContract(st *State, fr *Frame, resInstr ssa.Instruction, fn *
 	for i, p := range fn.Params {
 		vars[p.Name()] = args[i]
 	}
-	sc := &specCtx{x: x, st: st, vars: vars, pkg: fnPkg(fn), fn: fn, heap: st.heap}
+	sc := &specCtx{x: x, st: st, vars: vars, pkg: fnPkg(fn), fn: fn, heap: st.heap, letExprs: letMap(c)}
 	sc.lets = map[string]Value{}
-	for _, l := range c.Lets {
-		sc.lets[l.Label] = x.evalSpec(sc, l.Expr)
-	}
 	x.callOrd["call:"+rn]++
 	site := fmt.Sprintf("%s@%s.b%d.%d", rn, relName(fr.fn), fr.block.Index, fr.idx)
 	for i, r := range c.Requires {
@@ -1228,7 +1262,7 @@ func (x *Exec) callContract(st *State, fr *Frame, resInstr ssa.Instruction, fn *
 		pev.Panicked = true
 		other.events = append(other.events, &pev)
 		other.trail = append(other.trail, "panic in "+rn)
-		osc := &specCtx{x: x, st: other, vars: vars, pkg: fnPkg(fn), fn: fn, heap: other.heap, lets: sc.lets, old: pre, panicking: true}
+		osc := &specCtx{x: x, st: other, vars: vars, pkg: fnPkg(fn), fn: fn, heap: other.heap, lets: sc.lets, old: pre, panicking: true, letExprs: letMap(c)}
 		x.havocItems(other, osc, c.Modifies)
 		osc.heap = other.heap
 		for _, e := range c.PanicEnsures {
@@ -1242,7 +1276,7 @@ func (x *Exec) callContract(st *State, fr *Frame, resInstr ssa.Instruction, fn *
 	x.havocItems(st, sc, c.Modifies)
 	var res []Value
 	rs := fn.Signature.Results()
-	post := &specCtx{x: x, st: st, vars: map[string]Value{}, pkg: fnPkg(fn), fn: fn, heap: st.heap, lets: sc.lets, old: pre, atExit: true}
+	post := &specCtx{x: x, st: st, vars: map[string]Value{}, pkg: fnPkg(fn), fn: fn, heap: st.heap, lets: sc.lets, old: pre, atExit: true, letExprs: letMap(c)}
 	for k, v := range vars {
 		post.vars[k] = v
 	}
@@ -1765,4 +1799,24 @@ func (x *Exec) convert(st *State, v Value, to types.Type) Value {
 		}
 	}
 	return retype(v, to)
+}
+
+func (x *Exec) evalObserve(sc *specCtx, ob Clause) {
+	defer func() {
+		if r := recover(); r != nil {
+			if _, ok := r.(engineError); ok {
+				return // not available on this path
+			}
+			panic(r)
+		}
+	}()
+	v := x.evalSpec(sc, ob.Expr)
+	ts := x.flatten(v)
+	if len(ts) == 1 {
+		x.curObs = append(x.curObs, Observe{ob.Label, ts[0]})
+		return
+	}
+	for i, t := range ts {
+		x.curObs = append(x.curObs, Observe{fmt.Sprintf("%s_%d", ob.Label, i), t})
+	}
 }
